@@ -43,7 +43,7 @@ PER_SHARD = {"quick": 14, "thorough": 300}
 def shards(tier, seed):
     return [
         {"n": PER_SHARD[tier], "maxdim": 7 if tier == "quick" else 10, "depth": 4 if tier == "quick" else 6,
-         "fresh": 1 if tier == "quick" else 6, "watchdog_s": TIMEOUT[tier] - 30}
+         "fresh": 1 if tier == "quick" else 6, "randoms": 12 if tier == "quick" else 200, "watchdog_s": TIMEOUT[tier] - 30}
         for _ in range(NSHARDS[tier])
     ]
 
@@ -255,7 +255,7 @@ def check_recipe(recipe, optimize, workdir, rng, res, fresh_budget, only=None):
 
 EXTRA = ("plans", "tasks_in_plans", "schedules", "stored_arrays_compared", "chunk_writes_observed", "declined",
          "fresh_process_plans", "fresh_process_tasks", "random_arrays_checked", "plans_with_all_single_duplicates",
-         "skipped_too_many_tasks")
+         "skipped_too_many_tasks", "random_block_pairs_checked")
 GEN_KW = {"allow_zero": False, "weights": {"random": 6, "multi": 6, "rechunk": 8, "reduce": 12, "cum": 5, "create": 4}}
 
 
@@ -283,13 +283,90 @@ def run_shard(spec, workdir):
         shutil.rmtree(wd, ignore_errors=True)
         if k < 1 and spec.get("shard", 0) == 0:
             res["samples"].append({"recipe": recipe, "optimize": optimize, "schedules": "see rule"})
+    res["violations"].extend(random_stratum(spec.get("randoms", 12), workdir, rng, res))
     return res
+
+
+def random_stratum(n, workdir, rng, res):
+    """cubed.random arrays on 1-4 dimensional block grids: re-executed tasks regenerate identical blocks
+    (reversed order + duplicates), distinct blocks share no value."""
+    import itertools
+
+    import cubed
+    import cubed.random
+
+    viols = []
+    for k in range(n):
+        nd = rng.choice([1, 2, 3, 3, 3, 4])
+        nb = [rng.randint(1, 3) for _ in range(nd)]
+        ch = [rng.randint(1, 3) for _ in range(nd)]
+        shape = [b * c - (rng.randint(0, c - 1) if rng.random() < 0.4 else 0) for b, c in zip(nb, ch)]
+        shape = [max(1, d) for d in shape]
+        wd = os.path.join(workdir, f"rand{k}")
+        os.makedirs(wd, exist_ok=True)
+        spec = runner.make_spec(wd, zarr_compressor=None)
+        a = cubed.random.random(tuple(shape), chunks=tuple(ch), spec=spec)
+        case = {"random": {"shape": shape, "chunks": ch}}
+        try:
+            ref = np.asarray(a.compute(executor=advexec.SeqExecutor({"order": "fwd"})))
+            wipe_intermediates(wd)
+            tasks = None
+            again = np.asarray(a.compute(executor=advexec.SeqExecutor({"order": "rev", "dup_now": set()})))
+            ex = advexec.SeqExecutor({"order": "shuffle", "seed": k})
+            third = np.asarray(a.compute(executor=ex))
+        except Exception as e:
+            viols.append({"kind": "random-array-fails", "msg": f"{type(e).__name__}: {e}"[:300], "facts": case, "case": case})
+            continue
+        res["evaluations"] += 1
+        res["counters"]["random_arrays_checked"] += 1
+        res["nontrivial"].append(gen.rhash(["random", shape, ch]))
+        if not (np.array_equal(ref, again) and np.array_equal(ref, third)):
+            viols.append({"kind": "random-array-not-reproducible", "msg": f"random array {case} differs when its tasks are re-executed in another order", "facts": case, "case": case})
+        grid = [range(-(-d // c)) for d, c in zip(shape, ch)]
+        seen = {}
+        for bid in itertools.product(*grid):
+            sl = tuple(slice(b * c, (b + 1) * c) for b, c in zip(bid, ch))
+            for val in np.unique(ref[sl]):
+                if val in seen and seen[val] != bid:
+                    viols.append({"kind": "random-blocks-share-values", "msg": f"random array shape {shape} chunks {ch}: blocks {seen[val]} and {bid} contain the same value {val!r} (same random stream)", "facts": case, "case": case})
+                    break
+                seen[val] = bid
+            else:
+                continue
+            break
+        res["counters"]["random_block_pairs_checked"] += len(list(itertools.product(*grid)))
+        if ref.size and (ref.min() < 0 or ref.max() >= 1):
+            viols.append({"kind": "random-out-of-range", "msg": "values outside [0,1)", "facts": case, "case": case})
+        shutil.rmtree(wd, ignore_errors=True)
+    for v in viols:
+        v["property"] = PROPERTY
+    return viols
 
 
 def replay(rep, workdir):
     case = rep["case"]
     res = _rc.new_result(EXTRA)
     only = {"label": case["label"], "policy": case["policy"]} if "policy" in case else None
+    if "random" in case:
+        class R(random.Random):
+            pass
+        res["violations"] = []
+        import cubed.random
+        # re-run the same geometry
+        r = case["random"]
+        wd = os.path.join(workdir, "rand")
+        os.makedirs(wd, exist_ok=True)
+        import itertools
+        a = cubed.random.random(tuple(r["shape"]), chunks=tuple(r["chunks"]), spec=runner.make_spec(wd))
+        ref = np.asarray(a.compute(executor=advexec.SeqExecutor({"order": "fwd"})))
+        seen = {}
+        for bid in itertools.product(*[range(-(-d // c)) for d, c in zip(r["shape"], r["chunks"])]):
+            sl = tuple(slice(b * c, (b + 1) * c) for b, c in zip(bid, r["chunks"]))
+            for val in np.unique(ref[sl]):
+                if val in seen and seen[val] != bid:
+                    res["violations"].append({"property": PROPERTY, "kind": "random-blocks-share-values", "msg": f"blocks {seen[val]} and {bid} share {val!r}", "facts": case, "case": case})
+                seen[val] = bid
+        return res
     viols = check_recipe(case["recipe"], case.get("optimize", True), os.path.join(workdir, "replay"), random.Random(0), res, [1], only=only)
     for v in viols:
         v.setdefault("property", PROPERTY)
@@ -306,7 +383,7 @@ def finalize(tier, merged):
             ("adversarial schedules executed", c.get("schedules", 0), 3000 if tier == "quick" else 60000),
             ("stored arrays compared with the reference schedule", c.get("stored_arrays_compared", 0), 6000 if tier == "quick" else 120000),
             ("tasks executed in a fresh process", c.get("fresh_process_tasks", 0), 30 if tier == "quick" else 600),
-            ("random arrays checked", c.get("random_arrays_checked", 0), 5 if tier == "quick" else 100),
+            ("random arrays checked (re-execution + distinct streams)", c.get("random_arrays_checked", 0), 150 if tier == "quick" else 5000),
         ],
         "assumptions": ASSUMPTIONS,
     }
